@@ -15,6 +15,8 @@ import (
 
 	"pgregory.net/rapid"
 
+	"tunnox-core/internal/cloud/factories"
+	"tunnox-core/internal/cloud/managers"
 	"tunnox-core/internal/core/storage/hybrid"
 	"tunnox-core/verif/vkit"
 	"tunnox-core/verif/vkit/miniserver"
@@ -183,4 +185,84 @@ func replayPath(t *testing.T, path string) {
 	}
 	key, detail, stats := runPathCase(c)
 	reportPath(t, c, key, detail, stats)
+}
+
+// ---------------------------------------------------------------------------
+// Wiring of the id markers: every way the server builds its cloud-control services (the
+// plain factory and the PostgreSQL-mode factory; the Pg handle itself is absent offline —
+// the user-id path does not touch it) must put the services' IDManager on the SHARED server
+// storage. Two nodes = two dependency sets from the same factory over one amplified store.
+
+type WiringCase struct {
+	Factory string `json:"factory"` // deps | deps-with-postgres
+	K       int    `json:"k"`
+	Cands   []int  `json:"cands"`
+	Nodes   []int  `json:"nodes"` // node (0/1) that creates the i-th user
+}
+
+func runWiringCase(c WiringCase) (key, detail string) {
+	ctx, cancel := context.WithCancel(context.Background())
+	defer cancel()
+	a := newAmp(vkit.NewGateCache(nil, "cache"), c.K, false, [][]int{c.Cands})
+	st := hybrid.NewWithSharedCache(ctx, a, nil, nil, hybrid.DefaultConfig())
+	defer st.Close()
+	var deps [2]*managers.CloudControlDeps
+	for i := range deps {
+		if c.Factory == "deps-with-postgres" {
+			deps[i] = factories.CreateBuiltinCloudControlDepsWithPostgres(st, nil, ctx)
+		} else {
+			deps[i] = factories.CreateBuiltinCloudControlDeps(st, ctx)
+		}
+	}
+	a.bind(0)
+	holder := map[int]string{}
+	hist := ""
+	for i, n := range c.Nodes {
+		u, err := deps[n%2].UserService.CreateUser(fmt.Sprintf("user%d", i), fmt.Sprintf("u%d@example.com", i), 0)
+		if err != nil {
+			hist += fmt.Sprintf(" node%d->err", n%2+1)
+			if len(holder) < c.K {
+				return "C15/wiring/spurious-exhaustion", fmt.Sprintf("factory %s: %d of %d user ids live, CreateUser on node %d failed: %v; history:%s", c.Factory, len(holder), c.K, n%2+1, err, hist)
+			}
+			continue
+		}
+		cls, ok := a.lookup("user", u.ID)
+		hist += fmt.Sprintf(" node%d->%s", n%2+1, u.ID)
+		if !ok {
+			return "C15/wiring/id-issued-without-claim-in-the-shared-store", fmt.Sprintf("factory %s: node %d issued user id %s, but no claim for it ever reached the server's shared storage: its marker is private to the process, another node (or this one after a restart) can hand the same id out; history:%s", c.Factory, n%2+1, u.ID, hist)
+		}
+		if other, dup := holder[cls]; dup {
+			return "C15/wiring/duplicate-live-user-id-across-nodes", fmt.Sprintf("factory %s: node %d issued %s (class %d) while %s of the same class is live; history:%s", c.Factory, n%2+1, u.ID, cls, other, hist)
+		}
+		holder[cls] = u.ID
+		if len(holder) > c.K {
+			return "C15/wiring/no-exhaustion-error", hist
+		}
+	}
+	return "", ""
+}
+
+func TestFactoryWiring(t *testing.T) {
+	vkit.Check(t, 400, 8000, func(t *rapid.T) {
+		c := WiringCase{Factory: rapid.SampledFrom([]string{"deps", "deps-with-postgres"}).Draw(t, "factory"), K: rapid.IntRange(2, 5).Draw(t, "k")}
+		c.Cands = rapid.SliceOfN(rapid.IntRange(0, 2), 0, 6).Draw(t, "cands")
+		c.Nodes = rapid.SliceOfN(rapid.IntRange(0, 1), 2, 7).Draw(t, "nodes")
+		key, detail := runWiringCase(c)
+		if key != "" {
+			vkit.Violation(t, key, detail, c)
+			vkit.Case("known:wiring/"+c.Factory, true, fmt.Sprintf("%+v", c))
+			return
+		}
+		vkit.Case("wiring/"+c.Factory, true, fmt.Sprintf("%+v", c))
+	})
+}
+
+func replayWiring(t *testing.T, path string) {
+	var c WiringCase
+	if _, err := vkit.LoadReplay(path, &c); err != nil {
+		t.Fatal(err)
+	}
+	if key, detail := runWiringCase(c); key != "" {
+		vkit.Violation(t, key, detail, c)
+	}
 }
